@@ -22,6 +22,7 @@
 
 #include <cstdint>
 #include <cstring>
+#include <limits>
 
 #include <vector>
 #include <algorithm>
@@ -70,7 +71,13 @@ void EpollLoop::runLoop(Mode mode)
 
     keep_running_ = (mode == Loop::Mode::kForever);
     do {
-        int fds = epoll_wait(epoll_fd_, events.data(), events.size(), getWaitTime());
+        //! epoll_wait() takes an int: a deadline 2^31 ms or more away must not turn into a negative (= wait for ever)
+        //! or truncated timeout. Waking up early is harmless, the wait time is computed again in the next round.
+        int64_t wait_time = getWaitTime();
+        if (wait_time > std::numeric_limits<int>::max())
+            wait_time = std::numeric_limits<int>::max();
+
+        int fds = epoll_wait(epoll_fd_, events.data(), events.size(), static_cast<int>(wait_time));
 
         RECORD_SCOPE();
         beginLoopProcess();
